@@ -99,36 +99,71 @@ def run(ctx):
         viol(report, "C20-R2", B["mf"], "not-a-table", "match_filter / the filter constructors are not decision tables: %s" % e)
     # ---- R1 every yielded record passed match_filter
     g = B["gdr"]
-    c0 = prog.bodies.get(g.id + "::{closure#0}")
-    report.count()
-    if c0 is None:
-        report.lost_anchor("filter closure of get_domain_resources")
-    else:
+    fam = [g] + mu.closures_of(prog, g)
+
+    def closure_is_filter(c0):
+        """the closure returns Some(record) exactly when match_filter(type) is true"""
         try:
-            okt = True
             for m in (0, 1):
                 hooks = {("call", B["mf"].j["def"]): (lambda vals, m=m: m), ("call", B["mf"].id): (lambda vals, m=m: m)}
                 ev = Evaluator(prog, hooks)
                 r = ev.call(c0, [("closure", c0.id, ({"authoritative": 1},)), (Opaque("RECORD"), Opaque("TYPE"))])
                 want = "Some" if m else "None"
                 if not (isinstance(r, EnumVal) and r.v == want and (not m or r.f[0] == Opaque("RECORD"))):
-                    okt = False
-                    viol(report, "C20-R1", c0, "filter-closure", "the per-record closure returns %r when match_filter is %s" % (r, bool(m)))
-            if okt:
-                report.nontriv("filter closure")
+                    return False, "the per-record closure returns %r when match_filter is %s" % (r, bool(m))
+            return True, ""
         except NotATable as e:
-            viol(report, "C20-R1", c0, "not-a-table", str(e))
-        # all collections that feed `found` go through filter_map(closure#0)
-        fms = []
-        for bb in [g] + mu.closures_of(prog, g):
-            for bi, t in mu.calls(bb, r"^std::iter::Iterator::filter_map$"):
-                fms.append((bb, t))
-            for bi, t in mu.calls(bb, r"HashMap::<K, V, S, A>::(iter|values|keys|into_iter)$"):
-                nxt = bb.blocks[t["target"]]["term"] if t["target"] is not None else None
-                report.count()
-                if not (nxt and nxt["t"] == "call" and nxt["callee"] and nxt["callee"]["def"] == "std::iter::Iterator::filter_map"):
-                    viol(report, "C20-R1", bb, "unfiltered-read", "records of a trie node are read at `%s` without going through the expiry filter" % (t["sp"].get("sn") or ""))
-        report.floor("filtered reads of trie nodes in get_domain_resources", len(fms), 2)
+            return False, str(e)
+
+    def guarded_pushes(bb):
+        """loop form: every Vec::push of the body sits under the true edge of a test of match_filter's result"""
+        pushes = mu.calls(bb, r"^std::vec::Vec::<T, A>::push$")
+        mfs = mu.calls(bb, r"DomainResourceFilter::match_filter$")
+        if not pushes or not mfs:
+            return False
+        dom = mu.dominators(bb)
+        defs2 = mu.defs_of(bb)
+        good_regions = []
+        for mbi, mt in mfs:
+            sw = bb.blocks[mt["target"]]["term"] if mt["target"] is not None else None
+            if sw is None or sw["t"] != "switch" or mu.origin_local(bb, defs2, mu.op_local(sw["discr"])) != mt["dest"]["l"]:
+                continue
+            false_t = [tg for v, tg in sw["arms"] if int(v) == 0]
+            true_t = sw["otherwise"]
+            if false_t and true_t != false_t[0]:
+                good_regions.append(true_t)
+        return bool(good_regions) and all(any(tt in dom[pbi] for tt in good_regions) for pbi, _ in pushes)
+    n_filtered = 0
+    for bb in fam:
+        reads = mu.calls(bb, r"HashMap::<K, V, S, A>::(iter|values|keys|into_iter)$")
+        for bi, t in reads:
+            report.count()
+            nxt = bb.blocks[t["target"]]["term"] if t["target"] is not None else None
+            ok1 = False
+            why = "records of a trie node are read at `%s` without going through the expiry filter" % (t["sp"].get("sn") or "")
+            if nxt and nxt["t"] == "call" and nxt["callee"] and nxt["callee"]["def"] == "std::iter::Iterator::filter_map":
+                cl = mu.single_def(mu.defs_of(bb), mu.op_local(nxt["args"][1]))
+                cbody = prog.bodies.get(cl[2]["def"]) if cl is not None and cl[1] != "term" and cl[2].get("ak") == "closure" else None
+                if cbody is None:
+                    # the closure is a variable captured / defined in the enclosing function
+                    for x in fam:
+                        if x.kind == "Closure":
+                            okc, _w = closure_is_filter(x)
+                            if okc:
+                                cbody = x
+                                break
+                if cbody is not None:
+                    ok1, w2 = closure_is_filter(cbody)
+                    if not ok1:
+                        why = w2
+            elif guarded_pushes(bb):
+                ok1 = True
+            if ok1:
+                n_filtered += 1
+                report.nontriv("filtered read %s bb%d" % (bb.qname, bi))
+            else:
+                viol(report, "C20-R1", bb, "unfiltered-read", why)
+    report.floor("filtered reads of trie nodes in get_domain_resources", n_filtered, 2)
     # trie reads elsewhere
     readers = set()
     for b in prog.bodies.values():
